@@ -173,7 +173,8 @@ impl World {
                 }
                 Stmt::Always => lines.push("A".to_string()),
                 Stmt::Redo(ps) => {
-                    for p in ps {
+                    // (words starting with '-' are options of the nested redo)
+                    for p in ps.iter().filter(|p| !p.starts_with('-')) {
                         let abs = join_norm(&cwd, p).ok_or(EvalErr::Fail(1))?;
                         match self.eval_in(&abs, memo, stack) {
                             Ok(_) => {}
@@ -272,7 +273,7 @@ impl World {
                     };
                     match st {
                         Stmt::IfChange(v) | Stmt::Redo(v) => {
-                            for p in v {
+                            for p in v.iter().filter(|p| !p.starts_with('-')) {
                                 add(p, &cwd);
                             }
                         }
